@@ -79,7 +79,7 @@ func (sess *hopSession) checkIntent(intent authgrants.Intent, principalCert *cer
 func (sess *hopSession) checkCmd(cmd string, shell bool) (sessID, error) {
 	logrus.Info("target: received request to perform: ", cmd)
 	for i, ag := range sess.authorizedActions {
-		if thunks.TimeNow().Before(ag.ExpTime) {
+		if now := thunks.TimeNow(); !now.Before(ag.StartTime) && now.Before(ag.ExpTime) {
 			if !shell && ag.GrantType == authgrants.Command {
 				if ag.AssociatedData.CommandGrantData.Cmd == cmd {
 					// remove from authorized actions and return
